@@ -6,33 +6,38 @@ import Lean
     contains a fence and push starts with one (`myth_rbarrier` = `xchg`), so the owner's buffer is
     one of finitely many shapes determined by its program counter – `[]`, `[top lt]`,
     `[ptr (lt-1) e, top lt]` for a finished push, those followed by `[top t]` inside pop, … –
-    and a thief's buffer is `[]` except for its one pending `base` store.  The clauses list the
+    a thief's buffer is `[]` except for its one pending `base` store, and a base-side insertion
+    (put by the owner, trypass by anybody else; both under the lock) has its slot store and its
+    inserting `base` store pending, or the latter, or none.  The clauses list the
     shapes together with what memory looks like in each. -/
 namespace MythVerif.WsqTso
 open MythVerif.Wsq
 
 def ownerLocked : OPc → Bool
   | .po4 _ | .po5 _ _ | .po5b _ _ | .po6 _ | .po7 | .po8 | .po9 => true
+  | .stuckL | .pt1 _ | .pt6 _ | .pt7 _ _ | .pt8 _ _ | .pt9 => true
   | _ => false
 
 def thiefLocked : TPc → Bool
   | .tk1 | .tkf _ | .tk2 _ | .tk3 _ _ | .tk4 _ | .tk5 _ | .tk6 => true
+  | .tp1 _ | .tp1b _ | .tp2 _ _ | .tp3 _ | .tp4 _ => true
   | _ => false
 
 /-- the owner is between operations or at the start of one: its buffer may still hold the
     stores of the last push -/
 def carry : OPc → Bool
-  | .idle | .stuck | .pu0 _ | .pu0f _ _ | .pq | .po1 => true
+  | .idle | .stuck | .pu0 _ | .pu0f _ _ | .pq | .po1 | .ptl _ => true
   | _ => false
 
-/-- program counters at which a thief may have a buffered `base` store -/
+/-- program counters at which a thief / passer may have buffered stores -/
 def mayBuf : TPc → Bool
-  | .tkf _ | .tk6 => true
+  | .tkf _ | .tk6 | .tp3 _ | .tp4 _ => true
   | _ => false
 
 /-- lock-holding program counters of a thief at which no increment of `base` is pending or visible -/
 def notTrans : TPc → Bool
   | .tk1 | .tk3 _ _ | .tk4 _ => true
+  | .tp1 _ | .tp1b _ | .tp2 _ _ | .tp3 _ | .tp4 _ => true
   | _ => false
 
 /-- the reset path: memory `top` / `base` lag behind the ghosts until the unlock fence -/
@@ -74,6 +79,12 @@ def Po8Shape (bufO : List Sto) (top h : Int) : Prop := bufO = [.top h] ∨ (bufO
 def Po9Shape (bufO : List Sto) (top base h : Int) : Prop :=
   bufO = [.top h, .base h] ∨ (bufO = [.base h] ∧ top = h) ∨ (bufO = [] ∧ top = h ∧ base = h)
 
+/-- a base-side insertion after its program-order store of `base`: slot store and inserting `base`
+    store buffered, or the slot store drained, or both drained (then the element is in `A`) -/
+def InsShape (buf : List Sto) (ptr : Int → Option Elem) (lb : Int) : Prop :=
+  (∃ e, buf = [.ptr (lb - 1) (some e), .baseI (lb - 1) e]) ∨
+  (∃ e, buf = [.baseI (lb - 1) e] ∧ ptr (lb - 1) = some e) ∨ buf = []
+
 /-- a thief's increment of `base` is buffered (not visible: `tr = false`) or drained (`tr = true`) -/
 def TkfShape (buf : List Sto) (tr : Bool) (b : Int) : Prop :=
   (buf = [.base (b + 1)] ∧ tr = false) ∨ (buf = [] ∧ tr = true)
@@ -111,6 +122,12 @@ structure Inv (s : St) : Prop where
   po7   : s.opc = .po7 → s.bufO = [] ∧ s.lt = s.lb ∧ s.top = s.lt - 1
   po8   : s.opc = .po8 → s.lt = s.lb ∧ s.lb = s.size / 2 ∧ Po8Shape s.bufO s.top (s.size / 2)
   po9   : s.opc = .po9 → s.lt = s.lb ∧ s.lb = s.size / 2 ∧ Po9Shape s.bufO s.top s.base (s.size / 2)
+  stuckL : s.opc = .stuckL → s.bufO = [] ∧ s.top = s.lt
+  pt1   : ∀ e, s.opc = .pt1 e → s.bufO = [] ∧ s.top = s.lt
+  pt6   : ∀ e, s.opc = .pt6 e → s.bufO = [] ∧ s.top = s.lt
+  pt7   : ∀ e b, s.opc = .pt7 e b → s.bufO = [] ∧ s.top = s.lt ∧ b = s.lb
+  pt8   : ∀ e b, s.opc = .pt8 e b → s.top = s.lt ∧ b = s.lb ∧ Pu2Shape s.bufO s.ptr e (b - 1)
+  pt9   : s.opc = .pt9 → s.top = s.lt ∧ InsShape s.bufO s.ptr s.lb
   -- thieves
   tbufE : ∀ p, mayBuf (s.tpc p) = false → s.bufT p = []
   tkf   : ∀ p b, s.tpc p = .tkf b → s.lb = b ∧ TkfShape (s.bufT p) s.tr b
@@ -119,6 +136,9 @@ structure Inv (s : St) : Prop where
   tk3   : ∀ p b x, s.tpc p = .tk3 b x → s.lb = b + 1 ∧ s.ptr b = some x ∧ s.flT = some x
   tk4   : ∀ p r, s.tpc p = .tk4 r → r = s.flT
   tk6   : ∀ p, s.tpc p = .tk6 → Tk6Shape (s.bufT p) s.tr s.lb
+  tp2   : ∀ p e b, s.tpc p = .tp2 e b → b = s.lb
+  tp3   : ∀ p e, s.tpc p = .tp3 e → Pu2Shape (s.bufT p) s.ptr e (s.lb - 1)
+  tp4   : ∀ p ok, s.tpc p = .tp4 ok → InsShape (s.bufT p) s.ptr s.lb
 
 section ForceAux
 open Lean Meta in
